@@ -26,16 +26,24 @@ class WorkflowContext:
     def __init__(self, task: Task):
         """Initialize the workflow helper with its associated task."""
         self.task = task
-        self._deterministic: DeterministicExecutor | None = None
 
     @property
     def deterministic(self) -> DeterministicExecutor:
-        """Get the deterministic executor for this workflow context."""
-        if self._deterministic is None:
-            self._deterministic = DeterministicExecutor(
-                self.task.invocation.workflow, self.task.app
-            )
-        return self._deterministic
+        """
+        Get the deterministic executor of the invocation that is currently executing.
+
+        The executor (workflow identity and replay position) belongs to one execution,
+        so it is kept on the current invocation object and not on the task, which is
+        shared by every invocation of the task in this process.
+        """
+        invocation = self.task.invocation
+        executor: DeterministicExecutor | None = getattr(
+            invocation, "_deterministic_executor", None
+        )
+        if executor is None:
+            executor = DeterministicExecutor(invocation.workflow, self.task.app)
+            invocation._deterministic_executor = executor  # type: ignore[attr-defined]
+        return executor
 
     @property
     def app(self) -> Pynenc:
